@@ -5,13 +5,31 @@ standard library (tools/prim_selftest.sh).  `drv_prim bench` prints measured thr
 import TdModel.Prim.All
 open TdModel TdModel.Prim
 
+/-- Iterative hex decoder (inputs here reach several MiB); same language as `TdModel.ofHex`. -/
+def ofHexFast (s : String) : Option Bytes :=
+  if s == "-" then some [] else
+  let u := s.toUTF8
+  if u.size % 2 != 0 then none else Id.run do
+    let nib (c : UInt8) : UInt8 :=
+      if 48 ≤ c && c ≤ 57 then c - 48
+      else if 97 ≤ c && c ≤ 102 then c - 87
+      else if 65 ≤ c && c ≤ 70 then c - 55
+      else 255
+    let mut out := ByteArray.emptyWithCapacity (u.size / 2)
+    for i in [0:u.size / 2] do
+      let a := nib (u.get! (2*i))
+      let b := nib (u.get! (2*i + 1))
+      if a == 255 || b == 255 then return none
+      out := out.push (a * 16 + b)
+    return some out.toList
+
 def hex1 (f : Bytes → String) (a : String) : String :=
-  match ofHex a with
+  match ofHexFast a with
   | some x => f x
   | none => "bad-op"
 
 def hex2 (f : Bytes → Bytes → String) (a b : String) : String :=
-  match ofHex a, ofHex b with
+  match ofHexFast a, ofHexFast b with
   | some x, some y => f x y
   | _, _ => "bad-op"
 
@@ -22,7 +40,7 @@ def handle (line : String) : String :=
   | ["aesenc", k, b] => hex2 (fun k b => toHex (Prims.real.aesEnc k b)) k b
   | ["aesdec", k, b] => hex2 (fun k b => toHex (Prims.real.aesDec k b)) k b
   | ["aesctr", k, iv, skip, d] =>
-    match ofHex k, ofHex iv, skip.toNat?, ofHex d with
+    match ofHexFast k, ofHexFast iv, skip.toNat?, ofHexFast d with
     | some k, some iv, some skip, some d =>
       -- skip = 0 goes through `aesCtr` so that both exported entry points are exercised
       toHex (if skip == 0 then aesCtr k iv d else aesCtrAt k iv skip d)
@@ -31,7 +49,7 @@ def handle (line : String) : String :=
   | ["sha512", a] => hex1 (fun x => toHex (sha512 x)) a
   | ["hmac512", k, m] => hex2 (fun k m => toHex (hmacSha512 k m)) k m
   | ["pbkdf2", pw, salt, iters, dk] =>
-    match ofHex pw, ofHex salt, iters.toNat?, dk.toNat? with
+    match ofHexFast pw, ofHexFast salt, iters.toNat?, dk.toNat? with
     | some pw, some salt, some iters, some dk => toHex (pbkdf2Sha512 pw salt iters dk)
     | _, _, _, _ => "bad-op"
   | ["md5", a] => hex1 (fun x => toHex (md5 x)) a
@@ -51,6 +69,106 @@ def handle (line : String) : String :=
     | none => "bad-op"
   | _ => "bad-op"
 
+/-! ### `drv_prim bench [seed]`: measured throughput (wall clock and process CPU time) -/
+
+def mkBuf (seed : UInt64) (n : Nat) : ByteArray := Id.run do
+  let mut s := seed
+  let mut b := ByteArray.emptyWithCapacity n
+  for _ in [0:n] do
+    s := s * 6364136223846793005 + 1442695040888963407
+    b := b.push (s >>> 56).toUInt8
+  return b
+
+/-- utime+stime of this process in milliseconds (Linux, 100 Hz ticks); 0 if unavailable. -/
+def cpuMs : IO Nat := do
+  try
+    let st ← IO.FS.readFile "/proc/self/stat"
+    -- fields after the last ')' : state is field 3, utime 14, stime 15
+    match (st.splitOn ")").getLast? with
+    | some rest =>
+      let fs := (rest.splitOn " ").filter (· ≠ "")
+      pure ((fs[11]!.toNat?.getD 0 + fs[12]!.toNat?.getD 0) * 10)
+    | none => pure 0
+  catch _ => pure 0
+
+/-- Time a pure computation; `check` turns the result into a short string (forces it). -/
+def timed {α} (label : String) (unit : String) (amount : Float) (f : Unit → α) (check : α → String) : IO Unit := do
+  let c0 ← cpuMs
+  let t0 ← IO.monoNanosNow
+  let r ← IO.lazyPure f
+  let chk := check r
+  let t1 ← IO.monoNanosNow
+  let c1 ← cpuMs
+  let wall := (t1 - t0).toFloat / 1e9
+  let cpu := (c1 - c0).toFloat / 1e3
+  let f3 (x : Float) : String :=
+    let n := (x * 1000).round.toUInt64.toNat
+    let frac := toString (n % 1000)
+    s!"{n / 1000}.{String.ofList (List.replicate (3 - frac.length) '0')}{frac}"
+  let rate (s : Float) : String := if s <= 0 then "n/a" else f3 (amount / s)
+  IO.println s!"{label}: wall {f3 wall} s, cpu {f3 cpu} s => {rate wall} {unit} (wall), {rate cpu} {unit} (cpu)  [{chk}]"
+
+def hx (b : ByteArray) : String := toHex ((b.extract 0 4).toList)
+
+def bench (seed : UInt64) : IO Unit := do
+  let mb := 1048576
+  let big := mkBuf seed (8 * mb)
+  let one := mkBuf (seed + 1) mb
+  let oneL := one.toList
+  IO.println s!"drv_prim bench seed={seed}"
+  timed "sha256 ByteArray 8 MiB" "MB/s" 8.388608 (fun _ => SHA256.hashBA big) hx
+  timed "sha256 Bytes(List) 1 MiB" "MB/s" 1.048576 (fun _ => sha256 oneL) (fun r => toHex (r.take 4))
+  timed "sha1   ByteArray 8 MiB" "MB/s" 8.388608 (fun _ => SHA1.hashBA big) hx
+  timed "sha512 ByteArray 8 MiB" "MB/s" 8.388608 (fun _ => SHA512.hashBA big) hx
+  timed "md5    ByteArray 8 MiB" "MB/s" 8.388608 (fun _ => MD5.hashBA big) hx
+  timed "crc32  ByteArray 8 MiB" "MB/s" 8.388608 (fun _ => CRC32.checksumBA big) toString
+  let key := (mkBuf (seed + 2) 32)
+  let ak := aesExpandBA key
+  timed "aes enc, expanded key, ByteArray 1 MiB (65536 blocks)" "MB/s" 1.048576 (fun _ => Id.run do
+      let mut out := ByteArray.emptyWithCapacity mb
+      for i in [0:65536] do
+        out := ak.encAt one (16*i) out
+      return out) hx
+  timed "aes dec, expanded key, ByteArray 1 MiB (65536 blocks)" "MB/s" 1.048576 (fun _ => Id.run do
+      let mut out := ByteArray.emptyWithCapacity mb
+      for i in [0:65536] do
+        out := ak.decAt one (16*i) out
+      return out) hx
+  let keyL := key.toList
+  timed "AesKey.enc on Bytes, 65536 chained blocks" "MB/s" 1.048576 (fun _ => Id.run do
+      let mut b : Bytes := oneL.take 16
+      for _ in [0:65536] do
+        b := ak.enc b
+      return b) (fun r => toHex (r.take 4))
+  timed "aesEncBlock (key expanded per call) on Bytes, 16384 chained blocks" "MB/s" 0.262144 (fun _ => Id.run do
+      let mut b : Bytes := oneL.take 16
+      for _ in [0:16384] do
+        b := aesEncBlock keyL b
+      return b) (fun r => toHex (r.take 4))
+  timed "aesDecBlock (key expanded per call) on Bytes, 16384 chained blocks" "MB/s" 0.262144 (fun _ => Id.run do
+      let mut b : Bytes := oneL.take 16
+      for _ in [0:16384] do
+        b := aesDecBlock keyL b
+      return b) (fun r => toHex (r.take 4))
+  timed "aesCtr on Bytes 1 MiB" "MB/s" 1.048576 (fun _ => aesCtr keyL (oneL.take 16) oneL) (fun r => toHex (r.take 4))
+  timed "hmacSha256 on Bytes, 64-byte msg, 20000 chained" "kops/s" 20.0 (fun _ => Id.run do
+      let mut m : Bytes := oneL.take 64
+      for _ in [0:20000] do
+        m := hmacSha256 keyL m
+      return m) (fun r => toHex (r.take 4))
+  timed "pbkdf2Sha512 100000 iterations, dkLen 64" "runs/s" 1.0
+    (fun _ => pbkdf2Sha512 keyL (oneL.take 40) 100000 64) (fun r => toHex (r.take 4))
+  let m := natOfBE ((mkBuf (seed + 3) 256).toList) ||| (1 <<< 2047) ||| 1
+  let b0 := natOfBE ((mkBuf (seed + 4) 256).toList)
+  let e := natOfBE ((mkBuf (seed + 5) 256).toList) ||| (1 <<< 2047)
+  timed "modPow 2048-bit base/exponent/modulus, 20 chained" "ops/s" 20.0 (fun _ => Id.run do
+      let mut b := b0
+      for _ in [0:20] do
+        b := modPow b e m
+      return b) (fun r => toString (r % 1000000))
+
 def main (args : List String) : IO Unit :=
   match args with
+  | ["bench"] => do bench (← IO.monoNanosNow).toUInt64
+  | ["bench", s] => bench (s.toNat?.getD 1).toUInt64
   | _ => runDriver handle
